@@ -346,16 +346,43 @@ Proof.
 Qed.
 
 (* ---------- the T4-level stage: --skip-deduplication on or off ---------- *)
-Theorem dedup_stage_den (sense : desc R -> bool) skip surfs volus s' v' :
+Theorem dedup_stage_den (sense : desc R -> bool) skip surfs volus u0 u1 s' v' u' :
   NoDup (map fst surfs) ->
-  dedup_stage RS skip surfs volus = Ok (s', v') ->
+  dedup_stage RS skip surfs volus u0 u1 = Ok (s', v', u') ->
   forall fuel k, vden fuel (sense_of sense s') v' k = vden fuel (sense_of sense surfs) volus k.
 Proof.
   intros Hn H. unfold dedup_stage in H. destruct skip.
-  - injection H as <- <-. reflexivity.
+  - injection H as <- <- _. reflexivity.
   - destruct (remove_duplicate_surfaces RS surfs) as [new ren] eqn:Er.
     destruct (renumber_surfaces volus ren) as [vv|e] eqn:Ev; [|discriminate].
-    injection H as <- <-. apply (dedup_den sense surfs volus new ren vv Hn Er Ev).
+    destruct (lookup u0 ren); [|discriminate]. destruct (lookup u1 ren); [|discriminate].
+    injection H as <- <- _. apply (dedup_den sense surfs volus new ren vv Hn Er Ev).
+Qed.
+
+(* the helper planes after the stage are the same planes as before: equal senses *)
+Theorem dedup_stage_helpers (sense : desc R -> bool) skip surfs volus u0 u1 s' v' a b :
+  NoDup (map fst surfs) ->
+  dedup_stage RS skip surfs volus u0 u1 = Ok (s', v', (a, b)) ->
+  sense_of sense s' a = sense_of sense surfs u0 /\ sense_of sense s' b = sense_of sense surfs u1.
+Proof.
+  intros Hn H. destruct skip.
+  - unfold dedup_stage in H. injection H as <- _ <- <-. split; reflexivity.
+  - destruct (dedup_helpers_survive RS _ _ _ _ _ _ _ _ H) as [_ [_ [Ha Hb]]].
+    unfold dedup_stage in H.
+    destruct (remove_duplicate_surfaces RS surfs) as [new ren] eqn:Er.
+    destruct (renumber_surfaces volus ren) as [vv|e]; [|discriminate].
+    destruct (lookup u0 ren); [|discriminate]. destruct (lookup u1 ren); [|discriminate].
+    injection H as <- _ _ _.
+    assert (Hnn : NoDup (map fst new)).
+    { pose proof (rds_run RS surfs) as E. rewrite Er in E.
+      replace new with (fst (dedup_run RS (sort_items surfs) [])) by (rewrite <- E; reflexivity).
+      apply run_new_nodup. apply (Permutation.Permutation_NoDup (Permutation.Permutation_map fst (sort_items_perm surfs))). exact Hn. }
+    assert (Hone : forall u x, In (u, x) (snd (new, ren)) ->
+                   sense_of sense new x = sense_of sense surfs u).
+    { intros u x Hin. rewrite <- Er in Hin.
+      destruct (dedup_merges_equal surfs u x Hin) as [d [H1 [_ H3]]]. rewrite Er in H3.
+      unfold sense_of. rewrite (In_lookup _ _ _ Hn H1), (In_lookup _ _ _ Hnn H3). reflexivity. }
+    split; [exact (Hone _ _ Ha)|exact (Hone _ _ Hb)].
 Qed.
 
 (* both stages the options control, for any two option vectors *)
@@ -370,15 +397,20 @@ Theorem options_same_geometry :
      exists r1 r2, acyclic r1 d1 /\ acyclic r2 d2 /\
        forall sigma k, lookup k d1 <> None -> cden r1 sigma d1 k = cden r2 sigma d2 k)
   /\
-  (* volumes: de-duplication or not, over whatever tables the conversion built *)
-  (forall (sense : desc R -> bool) (o1 o2 : options) surfs volus s1 v1 s2 v2,
+  (* volumes: de-duplication or not, over whatever tables the conversion built;
+     the helper planes handed to remove_empty_volumes keep their senses *)
+  (forall (sense : desc R -> bool) (o1 o2 : options) surfs volus u0 u1 s1 v1 a1 b1 s2 v2 a2 b2,
      NoDup (map fst surfs) ->
-     dedup_stage RS (skip_dedup o1) surfs volus = Ok (s1, v1) ->
-     dedup_stage RS (skip_dedup o2) surfs volus = Ok (s2, v2) ->
-     forall fuel k, vden fuel (sense_of sense s1) v1 k = vden fuel (sense_of sense s2) v2 k).
+     dedup_stage RS (skip_dedup o1) surfs volus u0 u1 = Ok (s1, v1, (a1, b1)) ->
+     dedup_stage RS (skip_dedup o2) surfs volus u0 u1 = Ok (s2, v2, (a2, b2)) ->
+     (forall fuel k, vden fuel (sense_of sense s1) v1 k = vden fuel (sense_of sense s2) v2 k) /\
+     sense_of sense s1 a1 = sense_of sense s2 a2 /\ sense_of sense s1 b1 = sense_of sense s2 b2).
 Proof.
   split.
   - exact options_same_cells.
-  - intros sense o1 o2 surfs volus s1 v1 s2 v2 Hn H1 H2 fuel k.
-    rewrite (dedup_stage_den sense _ _ _ _ _ Hn H1), (dedup_stage_den sense _ _ _ _ _ Hn H2). reflexivity.
+  - intros sense o1 o2 surfs volus u0 u1 s1 v1 a1 b1 s2 v2 a2 b2 Hn H1 H2.
+    destruct (dedup_stage_helpers sense _ _ _ _ _ _ _ _ _ Hn H1) as [Ha1 Hb1].
+    destruct (dedup_stage_helpers sense _ _ _ _ _ _ _ _ _ Hn H2) as [Ha2 Hb2].
+    split; [|split; congruence]. intros fuel k.
+    rewrite (dedup_stage_den sense _ _ _ _ _ _ _ _ Hn H1), (dedup_stage_den sense _ _ _ _ _ _ _ _ Hn H2). reflexivity.
 Qed.
